@@ -125,6 +125,8 @@ type harnessRun struct {
 	maxQueryMs  int64
 	modelHits   int
 	fallbacks   int
+	crossChecked int
+	cross       bool // thorough tier: unsat verdicts are re-asked of a second solver
 	reinits     int
 	reached     map[string]int
 	findings    []exec.Finding
@@ -253,7 +255,7 @@ func explore(pkg string, runs []*harnessRun, logf func(string, ...interface{})) 
 				}
 				job := exec.Job{Fn: r.h.Fn, Params: r.params, Prefixes: pfx, MaxPaths: chunk, MaxSteps: r.h.MaxSteps,
 					MaxDepth: r.h.MaxDepth, TimeoutMs: r.h.TimeoutMs, Redirects: r.h.Redirects, MapOrder: r.h.MapOrder,
-					MapBudget: r.h.MapBudget, SampleEach: 7, Summaries: r.h.Summaries}
+					MapBudget: r.h.MapBudget, SampleEach: 7, Summaries: r.h.Summaries, Cross: r.cross}
 				res, err := w.run(job)
 				mu.Lock()
 				r.inflight--
@@ -292,6 +294,7 @@ func (r *harnessRun) absorb(res exec.JobResult) {
 	r.solverMs += res.SolverMs
 	r.modelHits += res.ModelHits
 	r.fallbacks += res.Fallbacks
+	r.crossChecked += res.CrossChecked
 	r.reinits += res.Reinits
 	if res.MaxQueryMs > r.maxQueryMs {
 		r.maxQueryMs = res.MaxQueryMs
